@@ -483,6 +483,7 @@ func (c *CqlServerConnection) outgoingLoop() {
 	go func() {
 		abort := false
 		for !c.IsClosed() {
+			verifPoint("server.outgoingLoop.iter")
 			if outgoing, ok := <-c.outgoing; !ok {
 				if !c.IsClosed() {
 					log.Error().Msgf("%v: outgoing frame channel was closed unexpectedly, closing connection", c)
@@ -659,6 +660,7 @@ func (c *CqlServerConnection) reportConnectionFailure(err error, read bool) (abo
 
 func (c *CqlServerConnection) processIncomingFrame(incoming *frame.Frame) {
 	log.Debug().Msgf("%v: received incoming frame: %v", c, incoming)
+	verifPoint("server.process.beforeDeliver")
 	select {
 	case c.incoming <- incoming:
 		log.Debug().Msgf("%v: incoming frame successfully delivered: %v", c, incoming)
@@ -720,6 +722,7 @@ func (c *CqlServerConnection) Send(f *frame.Frame) error {
 		return fmt.Errorf("%v: connection closed", c)
 	}
 	log.Debug().Msgf("%v: enqueuing outgoing frame: %v", c, f)
+	verifPoint("server.send.beforeEnqueue")
 	select {
 	case c.outgoing <- newFrameResponse(f):
 		log.Debug().Msgf("%v: outgoing frame successfully enqueued: %v", c, f)
@@ -751,6 +754,7 @@ func (c *CqlServerConnection) Receive() (*frame.Frame, error) {
 		return nil, fmt.Errorf("%v: connection closed", c)
 	}
 	log.Debug().Msgf("%v: waiting for incoming frame", c)
+	verifPoint("server.receive.beforeRecv")
 	if incoming, ok := <-c.incoming; !ok {
 		if c.IsClosed() {
 			return nil, fmt.Errorf("%v: connection closed", c)
@@ -780,8 +784,10 @@ func (c *CqlServerConnection) Close() (err error) {
 		outgoing := c.outgoing
 		c.incoming = nil
 		c.outgoing = nil
+		verifPoint("server.close.beforeCloseChannels")
 		close(incoming)
 		close(outgoing)
+		verifPoint("server.close.afterCloseChannels")
 		c.waitGroup.Wait()
 		c.onClose(c)
 		if err != nil {
